@@ -10,6 +10,8 @@ pub struct RealState {
     pub tree: Tree,
     pub tree2: Tree,
     pub seed: u64,
+    /// every request executed on this state so far (the replay script of the state)
+    pub history: Vec<String>,
 }
 
 pub struct Step {
@@ -104,12 +106,16 @@ fn node_named(n: &Option<String>) -> Node {
 
 impl RealState {
     pub fn new() -> Self {
-        RealState { tree: Tree::new(), tree2: Tree::new(), seed: 0 }
+        RealState { tree: Tree::new(), tree2: Tree::new(), seed: 0, history: vec![] }
     }
 
     /// Executes one request on the real crate.  Returns the answer and, when the model must be sent a
     /// different line (state loading, oracle read-back), that line.
     pub fn exec(&mut self, cmd: &str) -> (String, Option<String>) {
+        // breadcrumb: a stack overflow or an abort inside the crate kills the process and cannot be caught; the script of the
+        // state that was being driven is left on disk so that `check` can name it (and replay it in a process of its own)
+        self.history.push(cmd.to_string());
+        crumb(&self.history);
         let r = guarded(AssertUnwindSafe(|| self.exec_inner(cmd)));
         match r {
             Ok(x) => x,
